@@ -1020,75 +1020,7 @@ Proof.
 Qed.
 
 (* ------------------------------------------------------------------ *)
-(* char / codepoint: exhaustive check over all 0x110000 code points     *)
-
-Fixpoint all_range (p : positive) (base : N) (f : N -> bool) : bool :=   (* base .. base + p - 1 *)
-  match p with
-  | xH => f base
-  | xO q => all_range q base f && all_range q (base + Npos q) f
-  | xI q => f base && all_range q (base + 1) f && all_range q (base + 1 + Npos q) f
-  end.
-
-Lemma all_range_spec p : forall base f, all_range p base f = true ->
-  forall j, (base <= j < base + Npos p)%N -> f j = true.
-Proof.
-  induction p as [q IH|q IH|]; intros base f H j Hj; simpl in H.
-  - apply andb_true_iff in H as [H H3]. apply andb_true_iff in H as [H1 H2].
-    destruct (N.eq_dec j base) as [->|Hne]; [exact H1|].
-    destruct (N.lt_ge_cases j (base + 1 + Npos q)) as [Hlt|Hge].
-    + apply (IH _ _ H2). lia.
-    + apply (IH _ _ H3). lia.
-  - apply andb_true_iff in H as [H1 H2].
-    destruct (N.lt_ge_cases j (base + Npos q)) as [Hlt|Hge].
-    + apply (IH _ _ H1). lia.
-    + apply (IH _ _ H2). lia.
-  - assert (j = base) as -> by lia. exact H.
-Qed.
-
-Definition char_cp_ok (c : N) : bool :=
-  match std_char (VNum (f_of_N c)) with
-  | Ok (VStr [d]) => is_scalar c && (d =? c)%N
-  | Err EOther => negb (is_scalar c)
-  | _ => false
-  end.
-
-Lemma char_cp_all : all_range 0x110000 0 char_cp_ok = true.
-Proof. vm_compute. reflexivity. Qed.
-
-Lemma is_scalar_lt c : is_scalar c = true -> (c < 0x110000)%N.
-Proof.
-  unfold is_scalar. intros H. apply orb_true_iff in H as [H|H].
-  - apply N.ltb_lt in H. lia.
-  - apply andb_true_iff in H as [_ H]. apply N.ltb_lt in H. exact H.
-Qed.
-
-Lemma char_codepoint_inverse c : is_scalar c = true ->
-  std_char (VNum (f_of_N c)) = Ok (VStr [c]) /\
-  std_codepoint (VStr [c]) = Ok (VNum (f_of_N c)).
-Proof.
-  intros Hs. split; [|reflexivity].
-  pose proof (all_range_spec _ _ _ char_cp_all c) as H.
-  specialize (H ltac:(pose proof (is_scalar_lt c Hs); lia)).
-  unfold char_cp_ok in H.
-  destruct (std_char (VNum (f_of_N c))) as [v|e| |]; try discriminate H.
-  - destruct v as [| | |t| | |]; try discriminate H.
-    destruct t as [|d [|]]; try discriminate H.
-    apply andb_true_iff in H as [_ H]. apply N.eqb_eq in H. subst. reflexivity.
-  - destruct e; try discriminate H. rewrite Hs in H. discriminate H.
-Qed.
-
-(* below the first surrogate and above the last, up to 0x10FFFF, and nothing else *)
-Lemma char_rejects_non_scalar c : (c < 0x110000)%N -> is_scalar c = false ->
-  std_char (VNum (f_of_N c)) = Err EOther.
-Proof.
-  intros Hlt Hs.
-  pose proof (all_range_spec _ _ _ char_cp_all c ltac:(lia)) as H.
-  unfold char_cp_ok in H.
-  destruct (std_char (VNum (f_of_N c))) as [v|e| |]; try discriminate H.
-  - destruct v as [| | |t| | |]; try discriminate H.
-    destruct t as [|d [|]]; try discriminate H. rewrite Hs in H. discriminate H.
-  - destruct e; try discriminate H. reflexivity.
-Qed.
+(* char / codepoint (the exhaustive part is in Proofs/StrFns_char_proofs.v) *)
 
 (* whatever std.char returns, std.codepoint maps it back to an in-range scalar *)
 Lemma codepoint_char_inverse x v : std_char (VNum x) = Ok v ->
@@ -1140,4 +1072,85 @@ Proof.
     + destruct (checked_limit m) as [k|] eqn:E.
       * apply (checked_limit_pos m). exact E.
       * unfold usize_max. lia.
+Qed.
+
+(* ------------------------------------------------------------------ *)
+(* splitLimitR is upstream's definition: reverse, splitLimit, reverse back *)
+
+Lemma app_eq_len {A} (a1 a2 b1 b2 : list A) :
+  a1 ++ b1 = a2 ++ b2 -> length a1 = length a2 -> a1 = a2 /\ b1 = b2.
+Proof.
+  revert a2; induction a1 as [|x a1 IH]; intros [|y a2] H L; simpl in *; try discriminate; auto.
+  inversion H; subst. destruct (IH a2 H2 ltac:(lia)) as [-> ->]. auto.
+Qed.
+
+Lemma rev_neq_nil {A} (p : list A) : p <> [] -> rev p <> [].
+Proof. intros Hp E. apply Hp. rewrite <- (rev_involutive p), E. reflexivity. Qed.
+
+Lemma rsplit_first_mirror p s b a : p <> [] -> rsplit_first p s = Some (b, a) ->
+  split_first (rev p) (rev s) = Some (rev a, rev b).
+Proof.
+  intros Hp H. destruct (rsplit_first_spec p s b a Hp H) as [Hs Hmax].
+  pose proof (rev_neq_nil p Hp) as Hrp.
+  assert (rev s = rev a ++ rev p ++ rev b) as Hrs
+    by (rewrite Hs, !rev_app_distr, <- app_assoc; reflexivity).
+  destruct (split_first_complete (rev p) (rev s) (rev a) (rev b) Hrs) as (b' & a' & E).
+  destruct (split_first_spec _ _ _ _ Hrp E) as [Hs' Hmin].
+  specialize (Hmin _ _ Hrs).
+  assert (s = rev a' ++ p ++ rev b') as Hs2.
+  { rewrite <- (rev_involutive s), Hs', !rev_app_distr, rev_involutive, <- app_assoc. reflexivity. }
+  specialize (Hmax _ _ Hs2).
+  assert (length b' = length (rev a)) as Hlen.
+  { pose proof (f_equal (@length _) Hs') as L1. pose proof (f_equal (@length _) Hrs) as L2.
+    rewrite !app_length in L1, L2. rewrite !rev_length in *. lia. }
+  rewrite Hs' in Hrs. destruct (app_eq_len _ _ _ _ Hrs Hlen) as [-> Hrest].
+  apply app_inv_head in Hrest. subst a'. exact E.
+Qed.
+
+Lemma rsplit_first_mirror_none p s : rsplit_first p s = None -> split_first (rev p) (rev s) = None.
+Proof.
+  intros H. destruct (split_first (rev p) (rev s)) as [[b' a']|] eqn:E; [|reflexivity].
+  exfalso. apply split_first_sound in E.
+  assert (s = rev a' ++ p ++ rev b') as Hs2.
+  { rewrite <- (rev_involutive s), E, !rev_app_distr, rev_involutive, <- app_assoc. reflexivity. }
+  pose proof (rsplit_first_none _ _ H (length (rev a'))) as Hno. unfold occurs_at in Hno.
+  rewrite Hs2, skipn_app, skipn_all, Nat.sub_diag in Hno. simpl in Hno.
+  rewrite is_prefix_app in Hno. discriminate.
+Qed.
+
+Lemma RSplit_mirror p s l : p <> [] -> RSplit p s l -> Split (rev p) (rev s) (map (@rev N) l).
+Proof.
+  intros Hp. induction 1 as [s E|s b a l E HS IH]; simpl.
+  - apply Split_last. apply rsplit_first_mirror_none. exact E.
+  - eapply Split_cons; [apply rsplit_first_mirror; eauto|exact IH].
+Qed.
+
+Lemma rev_join sep l : rev (join sep l) = join (rev sep) (rev (map (@rev N) l)).
+Proof.
+  induction l as [|a l IH]; [reflexivity|].
+  destruct l as [|b l]; [reflexivity|].
+  rewrite join_cons by discriminate. rewrite !rev_app_distr, <- app_assoc.
+  cbn [map rev] in *.
+  rewrite join_snoc by (intros E; apply app_eq_nil in E as [_ E]; discriminate).
+  rewrite <- IH. reflexivity.
+Qed.
+
+Lemma map_rev_rev l : map (@rev N) (map (@rev N) l) = l.
+Proof. rewrite map_map. rewrite <- (map_id l) at 2. apply map_ext. intros x. apply rev_involutive. Qed.
+
+Lemma splitLimitR_mirror s p k l' : p <> [] ->
+  split_limit_cps (rev s) (rev p) (Some (N.of_nat (S k))) = Ok l' ->
+  split_limit_r_cps s p (Some (N.of_nat (S k))) = Ok (rev (map (@rev N) l')).
+Proof.
+  intros Hp H. destruct (RSplit_exists p Hp s) as [rs HR].
+  pose proof (RSplit_mirror p s rs Hp HR) as HS.
+  pose proof (rev_neq_nil p Hp) as Hrp.
+  assert (StrFns.split (rev s) (rev p) = Ok (map (@rev N) rs)) as Hsp
+    by (unfold StrFns.split; apply Split_split_fuel; auto).
+  rewrite (splitLimit_first_n _ _ _ k Hrp Hsp) in H. rewrite map_length in H.
+  rewrite (splitLimitR_last_n s p rs k Hp HR).
+  unfold str in *. revert H. destruct (length rs <=? S k)%nat; intros H; inversion H; subst; clear H; f_equal; f_equal.
+  - rewrite map_rev_rev. reflexivity.
+  - rewrite map_app, firstn_map, map_rev_rev. cbn [map]. f_equal. f_equal.
+    rewrite skipn_map, rev_join, map_rev_rev, rev_involutive. reflexivity.
 Qed.
